@@ -649,7 +649,12 @@ pub fn coordinator_main(check: &dyn Check, ctx: &Ctx, jobs: u64, max_secs: Optio
             let (r2, cr2) = run_workers(id, ctx.tier, 0, vec![spec], silence);
             let again: HashSet<&str> = r2.failures.iter().map(|x| x.1.as_str()).collect();
             if !cr2.is_empty() || !again.contains(f.1.as_str()) {
-                eprintln!("MACHINERY ERROR: failure {} did not reproduce in a fresh worker", f.1);
+                // The machinery is deterministic (no clocks, no randomness, fuel instead of
+                // time), so a failure that does not recur when its chunk is run alone in a
+                // fresh process was caused by what that worker process had executed before:
+                // the outcome of a call depends on earlier calls, which is itself what C18
+                // forbids. It is reported as a violation, marked as history-dependent.
+                println!("NOTE: failure {} did not recur in a fresh process: the outcome depends on calls made earlier in the same process (a compiled Regex must be a pure value, C18)", f.1);
                 flaky = true;
             }
         }
@@ -677,7 +682,7 @@ pub fn coordinator_main(check: &dyn Check, ctx: &Ctx, jobs: u64, max_secs: Optio
     }
     for (n, f) in unexplained.iter().enumerate().take(40) {
         let path = format!("{}/{}.json", vdir, n);
-        let body = format!("{{\"key\":{},\"detail\":{}}}\n", J::s(&f.1).to_string(), f.2);
+        let body = format!("{{\"key\":{},\"history_dependent_run\":{},\"detail\":{}}}\n", J::s(&f.1).to_string(), flaky, f.2);
         if std::fs::write(&path, body).is_err() {
             res.machinery_errors.push(format!("cannot write {}", path));
         }
@@ -811,7 +816,7 @@ pub fn coordinator_main(check: &dyn Check, ctx: &Ctx, jobs: u64, max_secs: Optio
             }
         }
     }
-    if !res.machinery_errors.is_empty() || flaky {
+    if !res.machinery_errors.is_empty() {
         for e in &res.machinery_errors {
             eprintln!("MACHINERY ERROR: {}", e);
         }
